@@ -231,11 +231,13 @@ def run(ctx):
     tri(bool(loc) and '.reshape(%s.shape)' % cp in unparse(loc[0].value), False, loc[0] if loc else 'from_sparse', 'looked-up columns keep the layout of the column table', '', fs)
     io = repo.func(AR, '_index_of')
     ap, lp = io.params[:2]
-    t = {unparse(x.targets[0]).replace(' ', ''): unparse(x.value).replace(' ', '') for x in io.nodes(ast.Assign)}
-    r = [x for x in io.returns() if x.value is not None]
+    from obligations.shape_tables import empty_lookup_guard
+    t = {unparse(x.targets[0]).replace(' ', ''): unparse(io.expand(x.value)).replace(' ', '') for x in io.nodes(ast.Assign)}
+    r = [x for x in io.returns() if x.value is not None and not empty_lookup_guard(io, x)]
     rt = unparse(r[-1].value).replace(' ', '') if r else ''
-    good = t.get('tmp[%s]' % lp) == 'np.arange(len(%s))' % lp and t.get('tmp[-1]') == '-1' and rt == 'tmp[%s]' % ap
-    bad = ('tmp[%s]' % lp in t and t.get('tmp[%s]' % lp) != 'np.arange(len(%s))' % lp) or ('tmp[-1]' in t and t.get('tmp[-1]') != '-1') or rt == 'tmp[%s]' % lp or \
+    fills = ('np.arange(len(%s))' % lp, 'np.arange(%s.size)' % lp, 'np.arange(%s.shape[0])' % lp)
+    good = t.get('tmp[%s]' % lp) in fills and t.get('tmp[-1]') == '-1' and rt == 'tmp[%s]' % ap
+    bad = ('tmp[%s]' % lp in t and t.get('tmp[%s]' % lp) not in fills) or ('tmp[-1]' in t and t.get('tmp[-1]') != '-1') or rt == 'tmp[%s]' % lp or \
         ('tmp[%s]' % lp in t and 'tmp[-1]' not in t)
     tri(good, bad, r[-1] if r else '_index_of', '_index_of: table[lookup[k]] = k, table[-1] = -1, result = table[values]',
         '_index_of no longer maps lookup[k] -> k with -1 kept (table[lookup] = %s, table[-1] = %s, returns %s)' % (t.get('tmp[%s]' % lp), t.get('tmp[-1]'), rt), io)
